@@ -178,7 +178,11 @@ def injector_pair(kind, frame, rng_seed):
         return call(inj, data, pr, col)
 
     def mk():
-        return pd.DataFrame(a.copy(), columns=names) if frame else a.copy()
+        if frame:
+            return pd.DataFrame(a.copy(), columns=names)
+        if rng_seed % 5 in (1, 3):
+            return np.array(a, order="F")         # a Fortran-ordered array that owns its memory
+        return a.copy()
 
     def flat(x):
         return [num(v) for v in np.asarray(x, dtype=float).ravel()]
